@@ -226,10 +226,12 @@ class MatrixDFTExecutor:
 
     def _key(self, samples_in, Q, samples_out, shift, fwd):
         """Key to X, Y, U, V dicts."""
-        if isinstance(Q, (float, int)):
+        # python floats for dtype stabilization: a numpy (or cupy) scalar Q would
+        # promote float32 bases to float64, and hashes equal to the python number
+        if not isinstance(Q, Iterable):
             Q = (Q, Q)
-        elif not isinstance(Q, tuple):
-            Q = tuple(float(q) for q in Q)  # float for dtype stabilization: cupy
+
+        Q = tuple(float(q) for q in Q)
 
         if not isinstance(samples_in, Iterable):
             samples_in = (samples_in, samples_in)
@@ -460,6 +462,10 @@ class ChirpZTransformExecutor:
 
         if not isinstance(Q, Iterable):
             Q = (Q, Q)
+
+        # python floats for dtype stabilization: a numpy scalar Q would promote
+        # float32 chirps to float64, and hashes equal to the python number in the cache key
+        Q = tuple(float(q) for q in Q)
 
         dtype = ary.dtype
 
